@@ -1268,6 +1268,55 @@ class _GenReturn(ast.stmt):
     _fields = ()
 
 
+_STRBUF_CALLS = ("io.StringIO", "StringIO")
+
+
+def _strbufs(fnode):
+    """locals of a function that hold an io.StringIO used only as a text accumulator: bound once to `io.StringIO()` (assignment or `with ... as`), and
+    otherwise only written to (`.write(text)`, `print(..., file=buf)`), read whole (`.getvalue()`) or closed.  Such a buffer is the string of what
+    has been written to it so far."""
+    cached = getattr(fnode, "_c13_strbufs", None)
+    if cached is not None:
+        return cached
+    is_new = lambda v: isinstance(v, ast.Call) and (dotted(v.func) or "") in _STRBUF_CALLS and not v.args and not v.keywords
+    cand = {}
+    nodes = list(walk_no_nested(fnode))
+    for n in nodes:
+        if isinstance(n, ast.Assign) and len(n.targets) == 1 and isinstance(n.targets[0], ast.Name) and is_new(n.value):
+            cand[n.targets[0].id] = cand.get(n.targets[0].id, 0) + 1
+        elif isinstance(n, (ast.With, ast.AsyncWith)):
+            for it in n.items:
+                if is_new(it.context_expr) and isinstance(it.optional_vars, ast.Name):
+                    cand[it.optional_vars.id] = cand.get(it.optional_vars.id, 0) + 1
+    out = set()
+    for nm, k in cand.items():
+        if k != 1:
+            continue
+        ok = True
+        for n in nodes:
+            if not (isinstance(n, ast.Name) and n.id == nm):
+                continue
+            par = getattr(n, "_vparent", None)
+            gp = getattr(par, "_vparent", None)
+            if isinstance(n.ctx, ast.Store):
+                if not ((isinstance(par, ast.Assign) and is_new(par.value)) or isinstance(par, ast.withitem)):
+                    ok = False
+            elif isinstance(par, ast.Attribute) and par.value is n and par.attr in ("write", "getvalue", "close") and isinstance(gp, ast.Call) and gp.func is par:
+                pass
+            elif isinstance(par, ast.keyword) and par.arg == "file" and isinstance(gp, ast.Call) and (dotted(gp.func) or "") == "print":
+                pass
+            else:
+                ok = False
+        # a nested function that touches the buffer is outside what this reads
+        if ok and any(isinstance(x, ast.Name) and x.id == nm for g in nodes if isinstance(g, (ast.FunctionDef, ast.AsyncFunctionDef, ast.Lambda)) and g is not fnode
+                      for x in ast.walk(g)):
+            ok = False
+        if ok:
+            out.add(nm)
+    fnode._c13_strbufs = out
+    return out
+
+
 def _is_generator(fnode):
     return any(isinstance(n, (ast.Yield, ast.YieldFrom)) for n in walk_no_nested(fnode))
 
@@ -1345,6 +1394,8 @@ class Engine:
             env.update(params)
         self.env0 = env
         self.locals = {n.id for n in walk_no_nested(fn) if isinstance(n, ast.Name) and isinstance(n.ctx, ast.Store)} | set(env)
+        self.strbufs = set(_strbufs(fn))          # io.StringIO accumulators of the function being evaluated
+        self.strings |= self.strbufs
 
     def _is_str_default(self, dv):
         if isinstance(dv, ast.Constant) and isinstance(dv.value, str):
@@ -2240,6 +2291,9 @@ class Engine:
         sub = State(env, st.facts, st.events, st.loops, st.frames + (st.env,))
         self.emit(sub, "enter", call, func=fnode.name, args=args, kws=kws)
         saved_locals, saved_nested = self.locals, self.nested
+        saved_bufs = self.strbufs
+        self.strbufs = set(_strbufs(getattr(fnode, "_c13_origin", fnode)))
+        self.strings |= self.strbufs
         self.locals = {n.id for n in walk_no_nested(fnode) if isinstance(n, ast.Name) and isinstance(n.ctx, ast.Store)} | set(env)
         self.nested = dict(self.nested)
         for n in fnode.body:
@@ -2259,6 +2313,7 @@ class Engine:
             if logged:
                 self._memo_logs.pop()
             self.locals, self.nested = saved_locals, saved_nested
+            self.strbufs = saved_bufs
         res = []
         for o in outs:
             c = State(st.env, o.facts, o.events, st.loops, st.frames)
@@ -2475,6 +2530,9 @@ class Engine:
             for k, v in closure.items():
                 st.env.setdefault(k, v)
         saved_locals, saved_nested = self.locals, self.nested
+        saved_bufs = self.strbufs
+        self.strbufs = set(self.strbufs) | {ren.get(b, b) for b in _strbufs(fnode)}
+        self.strings |= self.strbufs
         self.locals = set(self.locals) | set(ren.values())
         self.nested = dict(self.nested)
         for n in body:
@@ -2487,6 +2545,7 @@ class Engine:
         finally:
             self.depth -= 1
             self.locals, self.nested = saved_locals, saved_nested
+            self.strbufs = saved_bufs
         live, rest = [], []
         for o in outs:
             if o.status in ("run", "genreturn"):
@@ -2796,6 +2855,13 @@ class Engine:
                     continue
                 if isinstance(n, ast.Name) and isinstance(n.ctx, ast.Store):
                     names.add(n.id)
+                if isinstance(n, ast.Call) and isinstance(n.func, ast.Attribute) and isinstance(n.func.value, ast.Name) and n.func.attr == "write" \
+                        and n.func.value.id in self.strbufs:
+                    names.add(n.func.value.id)              # text accumulated in an io.StringIO: the buffer is the string so far
+                if isinstance(n, ast.Call) and (dotted(n.func) or "") == "print":
+                    for k in n.keywords:
+                        if k.arg == "file" and isinstance(k.value, ast.Name) and k.value.id in self.strbufs:
+                            names.add(k.value.id)
                 if isinstance(n, ast.Call) and isinstance(n.func, ast.Attribute) and isinstance(n.func.value, ast.Name) and \
                         n.func.attr in ("append", "extend", "insert", "pop", "add", "update", "sort", "clear", "remove", "popleft", "appendleft", "extendleft",
                                         "discard", "popitem", "setdefault", "reverse", "rotate"):
@@ -3751,6 +3817,10 @@ class Engine:
                 recv = self.ev(node.func.value, st)
         if id(node) in st.pre:
             return st.pre[id(node)]
+        if self.strbufs:
+            r = self._strbuf_call(node, st, name, attr)
+            if r is not None:
+                return r
         fnode = self.inlinable(node, st)
         if fnode is not None:
             outs = [(c, v) for c, v in self.inline(node, fnode, st.fork()) if c.status == "run"]
@@ -3801,6 +3871,48 @@ class Engine:
                     new = ("tuple", cur[1][:ival(args[0])] + (args[1],) + cur[1][ival(args[0]):])
                 st.env[node.func.value.id] = new if new is not None else ("op", "list-after-" + attr, (cur,) + tuple(args))
         return res
+
+    def _strbuf_call(self, node, st, name, attr):
+        """io.StringIO() / buf.write(text) / print(..., file=buf) / buf.getvalue() on a text accumulator (see _strbufs): the buffer is a string"""
+        par = getattr(node, "_vparent", None)
+        if name in _STRBUF_CALLS and not node.args and not node.keywords:
+            tgt = par.targets[0] if isinstance(par, ast.Assign) and len(par.targets) == 1 else getattr(par, "optional_vars", None) if isinstance(par, ast.withitem) else None
+            return S(()) if isinstance(tgt, ast.Name) and tgt.id in self.strbufs else None
+        if isinstance(node.func, ast.Attribute) and isinstance(node.func.value, ast.Name) and node.func.value.id in self.strbufs:
+            nm = node.func.value.id
+            cur = st.env.get(nm)
+            if cur is None or not self.is_str(cur):
+                raise Unsupported(f"text buffer {nm}: not a string here")
+            if attr == "getvalue" and not node.args:
+                return as_S(cur)
+            if attr == "close" and not node.args:
+                return ("k", None)
+            if attr == "write" and len(node.args) == 1 and not node.keywords:
+                v = self.ev(node.args[0], st)
+                if not self.is_str(v):
+                    v = S((("str", v),))
+                st.env[nm] = as_S(cur) + as_S(v)
+                self.emit(st, "assign", node, name=nm, value=st.env[nm])
+                return ("k", None)
+            raise Unsupported(f"text buffer {nm}: .{attr}")
+        if name == "print":
+            kw = {k.arg: k.value for k in node.keywords}
+            fv = kw.get("file")
+            if isinstance(fv, ast.Name) and fv.id in self.strbufs:
+                cur = st.env.get(fv.id)
+                args = [self.ev(a, st) for a in node.args]
+                sep = self.ev(kw["sep"], st) if "sep" in kw else S((("lit", " "),))
+                end = self.ev(kw["end"], st) if "end" in kw else S((("lit", "\n"),))
+                if cur is None or not self.is_str(cur) or not isinstance(sep, S) or not isinstance(end, S) or not all(self.is_str(a) for a in args) \
+                        or set(kw) - {"file", "sep", "end"}:
+                    raise Unsupported(f"text buffer {fv.id}: print of something that is not text")
+                text = S(())
+                for i, a in enumerate(args):
+                    text = text + (sep if i else S(())) + as_S(a)
+                st.env[fv.id] = as_S(cur) + text + end
+                self.emit(st, "assign", node, name=fv.id, value=st.env[fv.id])
+                return ("k", None)
+        return None
 
     def _call_value(self, node, st, name, recv, attr, args, kws):
         nargs = len(args)
